@@ -202,6 +202,21 @@ Theorem C05_queue_hands_over_fragments : forall maxf ops h (pk : list acl) d,
 Proof. exact queue_hands_over_fragments. Qed.
 Print Assumptions C05_queue_hands_over_fragments.
 
+(* several connections share the queue: AT EVERY POINT of the drain, whatever is enqueued,
+   completed or FLUSHED for other handles (a disconnection of another connection at any position
+   of the history), what the controller was handed for h is a prefix of h's fragments in order;
+   and all of them once nothing of h waits *)
+Theorem C05_queue_other_connections_harmless : forall maxf ops h (pk : list acl) d,
+  enqueued h ops = map (fun i => (Z.of_nat i, h)) (seq 0 (length pk)) ->
+  Forall (fun o => match o with Flush h' => h' <> h | _ => True end) ops ->
+  (exists k, map (fun ph => nth (Z.to_nat (fst ph)) pk d)
+                 (filter (is_handle h) (snd (q_run (q_init maxf) ops))) = firstn k pk) /\
+  (filter (is_handle h) (q_wait (fst (q_run (q_init maxf) ops))) = [] ->
+   map (fun ph => nth (Z.to_nat (fst ph)) pk d)
+       (filter (is_handle h) (snd (q_run (q_init maxf) ops))) = pk).
+Proof. exact queue_other_connections_harmless. Qed.
+Print Assumptions C05_queue_other_connections_harmless.
+
 (* ---- isochronous SDUs ----
    For every ISO data packet length > 4 and every SDU: fragments concatenate to the SDU, each
    is non-empty with data_total_length <= max; markers 10 (single) or 00 01* 11; sequence
@@ -473,6 +488,15 @@ Example C05_example_stale_partial :
                     mkAcl 1 1 0 4 [48; 49; 50; 51]]                 (* would complete the stale one *)
   = (asm_init, [Deliver [3; 0; 62; 0; 32; 33; 34]; ContNoStart]).
 Proof. vm_compute. reflexivity. Qed.
+
+(* one buffer, connection 2 has three fragments backlogged behind connection 1's packet;
+   connection 1 is flushed (disconnected) in the middle of the drain: 0, 1, 2 in order *)
+Example C05_example_flush_of_other_connection :
+  let ops := [Enqueue 0 2; Enqueue 100 1; Enqueue 1 2; Enqueue 101 1; Enqueue 2 2;
+              Completed 1 2; Flush 1; Completed 1 2; Completed 1 2] in
+  map fst (filter (is_handle 2) (snd (q_run (q_init 1) ops))) = [0; 1; 2] /\
+  filter (is_handle 2) (q_wait (fst (q_run (q_init 1) ops))) = [].
+Proof. vm_compute. split; reflexivity. Qed.
 
 Example C05_example_iso :
   fst (send_iso_sdu 5 6 65535 [1; 2; 3; 4; 5]) =
